@@ -118,6 +118,24 @@ pub struct RootLowerer<'a> {
     root: ss::CompuId,
 }
 
+/// Tag assignment for constructors and destructors.
+///
+/// A tag is the rank of the name among the names of its type, not its declaration
+/// position: structurally equal (transparent) data and codata types may list the
+/// same names in different orders and are interchangeable for the checker, so a
+/// positional tag would make a value built at one of them dispatch to the wrong
+/// arm at the other.
+trait TagRank<'n, Name: Ord + 'n>: Iterator<Item = &'n Name> + Sized {
+    fn tag_rank(self, name: &Name) -> Option<usize> {
+        let (found, rank) = self.fold((false, 0), |(found, rank), candidate| {
+            (found || candidate == name, rank + usize::from(candidate < name))
+        });
+        found.then_some(rank)
+    }
+}
+
+impl<'n, Name: Ord + 'n, I: Iterator<Item = &'n Name>> TagRank<'n, Name> for I {}
+
 /// Lowering pass for a package-dependent root applied to the host Builtin package.
 #[derive(AsRef, AsMut)]
 pub struct BuiltinRootLowerer<'a> {
@@ -345,7 +363,8 @@ impl Lower for ss::VPatId {
                 let data_id = lo.statics.data_pat_hints[self];
                 let idx = lo.statics.datas[&data_id]
                     .iter()
-                    .position(|(tag_branch, _ty)| tag_branch == &name)
+                    .map(|(tag_branch, _ty)| tag_branch)
+                    .tag_rank(&name)
                     .expect("Constructor tag not found");
                 let ctor_idx = CtorIdx { idx, name };
                 Ctor(ctor_idx, tail_vpat).into()
@@ -424,7 +443,8 @@ impl Lower for ss::ValueId {
                 let data_id = lo.statics.data_hints[self];
                 let idx = lo.statics.datas[&data_id]
                     .iter()
-                    .position(|(tag_branch, _ty)| tag_branch == &name)
+                    .map(|(tag_branch, _ty)| tag_branch)
+                    .tag_rank(&name)
                     .expect("Constructor tag not found");
                 let body = body.lower(lo, ());
                 body.map(|body| Ctor(CtorIdx { idx, name }, body).build(lo, site))
@@ -568,7 +588,8 @@ impl Lower for ss::CompuId {
                         let codata_id = lo.statics.codata_hints[self];
                         let idx = lo.statics.codatas[&codata_id]
                             .iter()
-                            .position(|(tag_branch, _ty)| tag_branch == &name)
+                            .map(|(tag_branch, _ty)| tag_branch)
+                            .tag_rank(&name)
                             .expect("Destructor tag not found");
                         let dtor_idx = DtorIdx { idx, name };
                         let branch_stack = Bullet.build(lo, site);
@@ -582,7 +603,8 @@ impl Lower for ss::CompuId {
                 let codata_id = lo.statics.codata_hints[&body];
                 let idx = lo.statics.codatas[&codata_id]
                     .iter()
-                    .position(|(tag_branch, _ty)| tag_branch == &name)
+                    .map(|(tag_branch, _ty)| tag_branch)
+                    .tag_rank(&name)
                     .expect("Destructor tag not found");
                 let dtor_idx = DtorIdx { idx, name };
                 let stack = Cons(dtor_idx, stack).build(lo, site);
